@@ -5,7 +5,7 @@ package ice
 // VerifTurnServer is the client's view of a TURN server URL.
 type VerifTurnServer struct {
 	Addr, Username, Password, ServerName string
-	UseTCP, UseTLS                      bool
+	UseTCP, UseTLS                       bool
 }
 
 func VerifParseTurnServer(raw string) (VerifTurnServer, error) {
